@@ -194,3 +194,110 @@ def all_families():
         "pending": pending_operands(),
         "lambdas": lambdas(),
     }
+
+
+def host_value(v):
+    """Python value -> value S-expression of harness/values.go (what the host hands over):
+    None = none, ("some", v), bool, int, float (dyadic), str, list, dict = object."""
+    if v is None:
+        return "none"
+    if isinstance(v, tuple) and v and v[0] == "some":
+        return f"(some {host_value(v[1])})"
+    if isinstance(v, bool):
+        return "(b true)" if v else "(b false)"
+    if isinstance(v, int):
+        return f"(i {v})"
+    if isinstance(v, float):
+        m, e = v, 0
+        while m != int(m):
+            m, e = m * 2, e + 1
+        return f"(f {int(m)} {e})"
+    if isinstance(v, str):
+        return "(s x" + v.encode("utf-8").hex() + ")"
+    if isinstance(v, list):
+        return "(l" + "".join(" " + host_value(x) for x in v) + ")"
+    if isinstance(v, dict):
+        return "(o" + "".join(f" (x{k.encode('utf-8').hex()} {host_value(x)})" for k, x in v.items()) + ")"
+    raise TypeError(v)
+
+
+def singleton_cases():
+    """Singletons (`$Name = type;`): programs with what the host provides for them, as
+    (main, mods, singletons) triples for progstream.run_all; singletons maps `$Name` to a value
+    S-expression, a name that is missing gets the zero value of its type, None = the option is
+    not sent at all. Covered: object and scalar singletons, `$Name` as an expression, extraction
+    (`fn f(c: $Name, a: int)`, callers pass only `a`) in one / several functions and of two
+    singletons, updates through the extracted parameter, through `$Name` and through aliases and
+    where they are visible, singletons of imported modules, the order in which the host is asked.
+    NOT generated: assignment to the singleton identifier itself (`$N = 1;`, `$N += 1;`: finding S1),
+    one singleton name declared in two modules (finding V22), nested object types (outside the
+    compiler model)."""
+    H = host_value
+    cfg_decl = "$Cfg = { n: int, s: str, b: bool, l: [int] };\n"
+    cfg_host = {"n": 5, "s": "hi", "b": True, "l": [1, 2]}
+    out = []
+
+    def add(main, hosts, mods=None):
+        for h in hosts:
+            out.append((main, mods, None if h is None else {k: H(v) for k, v in h.items()}))
+
+    cfg_hosts = [None, {}, {"$Cfg": cfg_host}]
+    # `$Name` as an expression
+    add(cfg_decl + "fn main() { println($Cfg); }", cfg_hosts)
+    add(cfg_decl + "fn main() { println($Cfg.n + 1, $Cfg.s + \"!\", !$Cfg.b, $Cfg.l, $Cfg.l.len()); for x in $Cfg.l { println(x); } }", cfg_hosts)
+    scal_decl = "$N = int;\n$F = float;\n$B = bool;\n$T = str;\n$L = [int];\n$O = ?int;\n"
+    scal_main = scal_decl + ("fn main() { println($N, $F, $B, $T, $L, $O); println($N * 2 + 1, $F + 1.5, !$B, $T + \"?\", $T.len(), $L.len(), "
+                             "$O.unwrap_or(7), $O.is_some()); if $B { println(\"yes\"); } else { println(\"no\"); } }")
+    scal_full = {"$N": 20, "$F": 2.5, "$B": True, "$T": "txt", "$L": [4, 5, 6], "$O": ("some", 9)}
+    add(scal_main, [None, scal_full, dict(reversed(list(scal_full.items()))), {"$N": -3, "$T": ""}, {"$O": None, "$L": [], "$B": False, "$F": -0.25},
+                    {"$N": 9223372036854775807, "$F": 1024.0}])
+    # extraction in one and in several functions; callers pass only the normal parameters
+    add(cfg_decl + "fn f(c: $Cfg) { println(c.n, c.s, c.b, c.l); } fn main() { f(); f(); }", cfg_hosts)
+    add(cfg_decl + "fn f(c: $Cfg) -> int { c.n } fn g(d: $Cfg) -> str { d.s } fn h(e: $Cfg, k: int) -> int { e.l.len() + k } "
+                   "fn main() { println(f() + f(), g() + g(), h(10), h(f())); }", cfg_hosts)
+    two_decl = "$A = int;\n$B = str;\n"
+    two_hosts = [None, {"$A": 3, "$B": "bee"}, {"$B": "bee", "$A": 3}, {"$A": 3}, {"$B": "bee"}]
+    add(two_decl + "fn ab(a: $A, b: $B) { println(\"ab\", a, b); } fn ba(b: $B, a: $A) { println(\"ba\", a, b); } "
+                   "fn only_b(x: $B) -> str { x + x } fn main() { ab(); ba(); println(only_b(), $A, $B); }", two_hosts)
+    add(two_decl + "fn f(a: $A, b: $B, p: int, q: str) { println(a + p, b + q); } fn g(b: $B, p: int) -> int { p + b.len() } "
+                   "fn main() { f(1, \"x\"); f(g(2), \"y\"); let v = 7; f(v, $B); }", two_hosts)
+    add("$K = int;\nfn sum(k: $K, n: int) -> int { if n == 0 { k } else { sum(n - 1) + k } } fn main() { println(sum(0), sum(4)); }",
+        [None, {"$K": 10}])
+    add("$K = int;\nfn a(k: $K) -> int { b(k) + k } fn b(k: $K, x: int) -> int { c(x, x) * k } fn c(k: $K, x: int, y: int) -> int { x + y + k } "
+        "fn main() { println(a()); }", [None, {"$K": 3}])
+    add("$K = int;\nfn get(k: $K) -> int { k } fn main() { let l = [get(), get() + 1]; let o = new { v: get() }; println(l, o.v); "
+        "let i = 0; while i < get() { i += 1; } println(i); for j in 0..get() { print(j); } println(); }", [None, {"$K": 3}])
+    # updates through the extracted parameter: fields / elements are shared with the singleton, the parameter itself is a local
+    add(cfg_decl + "fn bump(c: $Cfg) { c.n += 1; c.s += \"x\"; c.b = !c.b; c.l.push(c.n); } fn show(c: $Cfg) { println(c.n, c.s, c.b, c.l); } "
+                   "fn main() { show(); bump(); show(); bump(); bump(); show(); println($Cfg); }", cfg_hosts)
+    add(cfg_decl + "fn f(c: $Cfg) { println(c.n); c.n = 9; println(c.n); c = new { n: 1, s: \"z\", b: false, l: [0] }; println(c.n); c.n = 2; } "
+                   "fn main() { f(); f(); println($Cfg.n); }", cfg_hosts)
+    add("$N = int;\n$T = str;\nfn f(n: $N, t: $T) { println(n, t); n = 9; n += 1; t += \"!\"; println(n, t); } fn main() { f(); f(); println($N, $T); }",
+        [None, {"$N": 3, "$T": "t"}])
+    add(cfg_decl + "fn main() { $Cfg.n = 8; $Cfg.n += 1; $Cfg.l.push(3); $Cfg.l[0] = 9; $Cfg.s = \"w\"; println($Cfg); }", [None, {"$Cfg": cfg_host}])
+    add(cfg_decl + "fn rd(c: $Cfg) -> int { c.n } fn main() { println(rd()); $Cfg.n = 8; println(rd()); let a = $Cfg; a.n = 11; println(rd(), $Cfg.n); "
+                   "let b = $Cfg.l; b.push(4); println($Cfg.l); }", cfg_hosts)
+    add(cfg_decl + "fn grow(c: $Cfg, by: int) -> int { c.l.push(by); c.l.len() } fn main() { for i in 0..4 { println(grow(i * i)); } println($Cfg.l); }", cfg_hosts)
+    add("$L = [int];\nfn add(l: $L) { l.push(l.len()); } fn last(l: $L) -> int { l[-1] } fn main() { add(); add(); println($L, last()); "
+        "let m = $L; m.pop(); println($L); for x in $L { add(); } println($L); }", [None, {"$L": [10]}, {"$L": []}])
+    add("$O = ?int;\nfn f(o: $O) -> int { o.unwrap_or(-1) } fn main() { println(f(), $O); }", [None, {"$O": ("some", 4)}, {"$O": None}])
+    add(cfg_decl + "fn risky(c: $Cfg, k: int) { c.n += 1; if k > 0 { throw(\"boom\"); }; c.n += 100; } "
+                   "fn main() { try { risky(1); } catch e { println(e.message); }; println($Cfg.n); risky(0); println($Cfg.n); }", cfg_hosts)
+    add(cfg_decl + "fn main() { println($Cfg.l[1]); }", [None, {"$Cfg": cfg_host}])       # zero value: index out of bounds
+    add("$O = ?int;\nfn f(o: $O) -> int { o.unwrap() } fn main() { println(f()); }", [None, {"$O": ("some", 4)}])
+    add("$N = int;\nfn main() { println(10 / $N); }", [None, {"$N": 5}])
+    add("$N = int;\nlet g = 5;\nfn f(n: $N) -> int { g += n; g } fn main() { println(f()); println(f()); println(g, $N); }", [None, {"$N": 2}])
+    add("$U = int;\n$N = int;\nfn main() { println($N); }", [None, {"$U": 1, "$N": 2}, {"$Other": 1}])
+    # singletons of an imported module
+    m = "$Dev = { v: int, tag: str };\npub fn get(d: $Dev) -> int { d.v }\npub fn bump(d: $Dev, by: int) { d.v += by; d.tag += \"+\"; }\npub fn tag(d: $Dev) -> str { d.tag }\nfn main() { }"
+    add("import { get, bump, tag } from dev;\nfn main() { println(get(), tag()); bump(2); bump(get()); println(get(), tag()); }",
+        [None, {"$Dev": {"v": 40, "tag": "t"}}], mods={"dev": m})
+    add("import { get, bump } from dev;\n$Own = { v: int };\nfn mine(o: $Own) -> int { o.v } fn both(o: $Own) -> int { bump(o.v); get() + o.v } "
+        "fn main() { println(get(), mine()); $Own.v = 3; println(get(), mine()); println(both()); println(both()); println(get(), mine()); }",
+        [None, {"$Dev": {"v": 40, "tag": "t"}}, {"$Own": {"v": 7}}, {"$Own": {"v": 7}, "$Dev": {"v": 40, "tag": "t"}}, {"$Dev": {"v": 40, "tag": "t"}, "$Own": {"v": 7}}],
+        mods={"dev": m})
+    m2 = "$Cnt = int;\n$Log = [str];\npub fn note(l: $Log, c: $Cnt, what: str) -> int { l.push(what); l.len() + c }\npub fn dump(l: $Log) { println(l); }\nfn main() { }"
+    add("import { note, dump } from journal;\n$Own = int;\nfn main() { println(note(\"a\")); println(note(\"b\"), $Own); dump(); }",
+        [None, {"$Cnt": 100, "$Log": ["z"], "$Own": 1}, {"$Own": 1, "$Log": ["z"], "$Cnt": 100}, {"$Log": ["y", "z"]}],
+        mods={"journal": m2})
+    return out
